@@ -57,7 +57,8 @@ def tq(n, qmax, tmax=99):
     return None
 
 
-GRP = {"all": "step::ALL", "st": "step::STRUCT", "or": "step::ORDER", "mo": "step::MODEL"}
+GRP = {"all": "step::ALL", "st": "step::STRUCT", "or": "step::ORDER", "mo": "step::MODEL",
+       "allp": "step::ALLP", "mop": "step::MODELP"}
 PRE = {"inv": "Pre::Inv", "cs": "Pre::CrashSafe"}
 TAB = {"any": "Tables::Any", "id": "Tables::Identity"}
 B = {True: "true", False: "false"}
@@ -114,13 +115,16 @@ def _core():
             for n in range(0, tmax + 1):
                 # order group -> C01/C02; model group from order-free states -> C03;
                 # struct group from order-free states -> C04 and the continuation half of C10
-                t_or = tq(n, qmax_of(kind, op, 4), tmax)
+                t_or = tq(n, qmax_of(kind, op, 6 if op in ("push", "change_priority", "remove", "pop_hi") else 4), tmax)
                 t_mo = tq(n, qmax_of(kind, op, 3), tmax - 1)
                 t_st = tq(n, qmax_of(kind, op, 3), tmax - 1)
                 if kind == "dq" and op == "change_priority_by" and n >= 2:
                     t_or = t_mo = t_st = THOROUGH    # same sift path as change_priority
                 step(op, kind, n, "inv", "or", {op_: t_or}, grow=grow)
-                step(op, kind, n, "cs", "mo", {"C03": t_mo, "C12": t_mo if op == "push" else None}, grow=grow)
+                step(op, kind, n, "cs", "mo", {"C03": t_mo}, grow=grow)
+                if op in ("push", "change_priority", "change_priority_by"):
+                    # C12: the item value of the element an update targets stays what it was
+                    step(op, kind, n, "cs", "mop", {"C12": t_mo if op != "change_priority_by" else tq(n, 2 if kind == "pq" else 1, tmax - 1)}, grow=grow)
                 step(op, kind, n, "cs", "st", {"C04": t_st, "C10": t_st}, grow=grow)
 
 
@@ -181,7 +185,7 @@ def _more():
             for op in ("push_increase", "push_decrease"):
                 t = tq(n, qmax_of(kind, op, 4), tmax)
                 step(op, kind, n, "inv", "all", {"C11": t}, grow=1)
-                step(op, kind, n, "cs", "mo", {"C12": tq(n, qmax_of(kind, op, 3, 1, 1), tmax)}, grow=1)
+                step(op, kind, n, "cs", "mop", {"C12": tq(n, qmax_of(kind, op, 3, 1, 1), tmax)}, grow=1)
                 step(op, kind, n, "cs", "st", {"C04": tq(n, qmax_of(kind, op, 2, 1, 1), tmax)}, grow=1)
             # pop_if family, peek_mut family
             for e in ends:
@@ -193,12 +197,14 @@ def _more():
                 step(op, kind, n, "cs", "st", {"C04": t2})
                 op = f"peek_{e}_mut"
                 t = tq(n, 4 if kind == "pq" else 3, tmax)
-                step(op, kind, n, "inv", "all", {op_: t, "C12": t})
+                step(op, kind, n, "inv", "or", {op_: t})
+                step(op, kind, n, "inv", "allp", {"C12": t})
                 step(op, kind, n, "cs", "st", {"C04": tq(n, 2, tmax)})
             t = tq(n, 3, tmax)
-            step("get_mut", kind, n, "inv", "all", {"C03": tq(n, 2, tmax), "C12": t})
+            step("get_mut", kind, n, "inv", "all", {"C03": tq(n, 2, tmax)})
+            step("get_mut", kind, n, "inv", "allp", {"C12": t})
             t = tq(n, qmax_of(kind, "change_priority_item", 4), tmax)
-            step("change_priority_item", kind, n, "inv", "all", {"C12": t})
+            step("change_priority_item", kind, n, "inv", "allp", {"C12": t})
             # retain: one instance per concrete verdict pattern (see step.rs); quick: one
             # pattern per survivor count, thorough: every pattern up to n = 4
             for op in ("retain_imm", "retain_mut"):
@@ -208,7 +214,9 @@ def _more():
                     if pat != canon and n > 4:
                         continue
                     t = tq(n, 3, tmax) if pat == canon else THOROUGH
-                    retain(op, kind, n, pat, "inv", "all", {"C08": t, op_: t if op == "retain_mut" else THOROUGH})
+                    retain(op, kind, n, pat, "inv", "all", {"C08": t})
+                    if pat == canon or n <= 3:
+                        retain(op, kind, n, pat, "inv", "or", {op_: t if op == "retain_mut" else THOROUGH})
                     if pat == canon:
                         retain(op, kind, n, pat, "cs", "st", {"C04": tq(n, 2, tmax) if op == "retain_mut" else THOROUGH})
             step("clear", kind, n, "cs", "all", {"C16": tq(n, 3, tmax), "C04": tq(n, 1, tmax)}, grow=1)
@@ -231,9 +239,21 @@ def _iters():
                 tt = t if not via else (QUICK if n == 2 else THOROUGH)
                 inst(f"itermut_{kind}_prefix_n{n}_{v}_drop",
                      f"iters::iter_mut_prefix::<{ty}, {n}>(Pre::Inv, Tables::Any, step::ALL, false, {B[via]})",
-                     kind, n, {"C08": tt, op_: tt if not via else None, "C12": t1 if not via else None}, "STEP",
+                     kind, n, {"C08": tt}, "STEP",
                      meta=dict(op="iter_mut", end="drop", via=v, pre="inv", group="all", **m),
                      covers_required=(n > 1))
+                if not via:
+                    inst(f"itermut_{kind}_prefix_n{n}_dir_drop_or",
+                         f"iters::iter_mut_prefix::<{ty}, {n}>(Pre::Inv, Tables::Any, step::ORDER, false, false)",
+                         kind, n, {op_: tt}, "STEP",
+                         meta=dict(op="iter_mut", end="drop", via=v, pre="inv", group="or", **m),
+                         covers_required=(n > 1))
+                if not via:
+                    inst(f"itermut_{kind}_prefix_n{n}_dir_drop_pay",
+                         f"iters::iter_mut_prefix::<{ty}, {n}>(Pre::Inv, Tables::Any, step::ALLP, false, false)",
+                         kind, n, {"C12": t1}, "STEP",
+                         meta=dict(op="iter_mut", end="drop", via=v, pre="inv", group="allp", **m),
+                         covers_required=(n > 1))
             # leaked guard: order unspecified, safety not (C04, C10)
             inst(f"itermut_{kind}_prefix_n{n}_dir_forget",
                  f"iters::iter_mut_prefix::<{ty}, {n}>(Pre::CrashSafe, Tables::Any, step::STRUCT, true, false)",
@@ -283,7 +303,7 @@ def _iters():
             t = tq(n, smax_q, smax_t)
             m = dict(kind=kind, n=n)
             inst(f"sorted_{kind}_iter_n{n}", f"iters::sorted_iter::<{ty}, {n}>(Tables::Any)",
-                 kind, n, {"C06": t, "C13": tq(n, 2, smax_t)}, "ITER", meta=dict(iter="into_sorted_iter", **m),
+                 kind, n, {"C06": t, "C13": tq(n, 2, 3)}, "ITER", meta=dict(iter="into_sorted_iter", **m),
                  cost=n * n * (20 if kind == "dq" else 4))
             inst(f"sorted_{kind}_vec_desc_n{n}", f"iters::sorted_vec::<{ty}, {n}>(false, Tables::Any)",
                  kind, n, {"C06": t}, "ITER", meta=dict(op="into_sorted_vec/desc", **m),
@@ -374,9 +394,15 @@ def _bulk():
                         t = QUICK if quick else THOROUGH
                         inst(f"extend_{kind}_n{n}_m{m}_{tag}_{hname}",
                              f"bulk::extend::<{ty}, {n}, {m}, {seq_of(keys)}>(Pre::Inv, Tables::Any, step::ALL, {HINTS[hname]})",
-                             kind, n + m, {"C07": t, op_: THOROUGH if hname in ("none", "exact") else None}, "STEP",
+                             kind, n + m, {"C07": t}, "STEP",
                              meta=dict(op="extend", kind=kind, n=n, m=m, keys=keys, hint=hname, pre="inv", group="all"),
                              covers_required=False, cost=(n + m) * m * (25 if dq else 4))
+                        if hname in ("none", "exact") and m == 2 and tag in ("xa", "ab", "aa"):
+                            inst(f"extend_{kind}_n{n}_m{m}_{tag}_{hname}_or",
+                                 f"bulk::extend::<{ty}, {n}, {m}, {seq_of(keys)}>(Pre::Inv, Tables::Any, step::ORDER, {HINTS[hname]})",
+                                 kind, n + m, {op_: QUICK if (n <= nq and hname == "none" and tag in ("xa", "ab")) else THOROUGH}, "STEP",
+                                 meta=dict(op="extend", kind=kind, n=n, m=m, keys=keys, hint=hname, pre="inv", group="or"),
+                                 covers_required=False, cost=(n + m) * m * (25 if dq else 4))
             if n <= nq:
                 inst(f"extend_{kind}_n{n}_m2_cs",
                      f"bulk::extend::<{ty}, {n}, 2, {seq_of([n, 0 if n else n + 1])}>(Pre::CrashSafe, Tables::Any, step::STRUCT, bulk::H_EXACT)",
@@ -389,9 +415,15 @@ def _bulk():
                 t = QUICK if (not dq and hname == "far" and tag in ("xa", "xx")) else THOROUGH
                 inst(f"extend_{kind}_n8_m2_{tag}_{hname}_rebuild",
                      f"bulk::extend::<{ty}, 8, 2, {seq_of(keys)}>(Pre::Inv, Tables::Identity, step::ALL, {HINTS[hname]})",
-                     kind, 10, {"C07": t, op_: THOROUGH}, "STEP",
+                     kind, 10, {"C07": t}, "STEP",
                      meta=dict(op="extend", kind=kind, n=8, m=2, keys=keys, hint=hname, strategy="rebuild", tables="identity"),
                      covers_required=False, cost=900 if dq else 200, mem=10)
+                if hname == "far" and tag == "xa":
+                    inst(f"extend_{kind}_n8_m2_{tag}_{hname}_rebuild_or",
+                         f"bulk::extend::<{ty}, 8, 2, {seq_of(keys)}>(Pre::Inv, Tables::Identity, step::ORDER, {HINTS[hname]})",
+                         kind, 10, {op_: QUICK if not dq else THOROUGH}, "STEP",
+                         meta=dict(op="extend", kind=kind, n=8, m=2, keys=keys, hint=hname, strategy="rebuild", tables="identity", group="or"),
+                         covers_required=False, cost=900 if dq else 200, mem=10)
             t = QUICK if (not dq and tag in ("xa", "xx")) else THOROUGH
             inst(f"extend_{kind}_n8_m2_{tag}_twin",
                  f"bulk::extend_twin::<{ty}, 8, 2, {seq_of(keys)}>(Tables::Identity, bulk::H_NONE, bulk::H_FAR)",
@@ -406,14 +438,30 @@ def _bulk():
             for tag, keys in seqs:
                 t = tq(l, 3, 4)
                 inst(f"fromvec_{kind}_l{l}_{tag}", f"bulk::from_vec::<{ty}, {l}, {seq_of(keys)}>(step::ALL)",
-                     kind, l, {"C07": t, op_: t, "C04": t}, "BASE",
+                     kind, l, {"C07": t}, "BASE",
                      meta=dict(ctor="From<Vec>", kind=kind, len=l, keys=keys), covers_required=False)
+                inst(f"fromvec_{kind}_l{l}_{tag}_or", f"bulk::from_vec::<{ty}, {l}, {seq_of(keys)}>(step::ORDER)",
+                     kind, l, {op_: t}, "BASE",
+                     meta=dict(ctor="From<Vec>", kind=kind, len=l, keys=keys, group="or"), covers_required=False)
+                inst(f"fromvec_{kind}_l{l}_{tag}_st", f"bulk::from_vec::<{ty}, {l}, {seq_of(keys)}>(step::STRUCT)",
+                     kind, l, {"C04": t}, "BASE",
+                     meta=dict(ctor="From<Vec>", kind=kind, len=l, keys=keys, group="st"), covers_required=False)
                 for hname in ("none", "exact", "upper", "lower", "far", "max"):
                     t2 = QUICK if (l in (2, 3) and hname in ("none", "exact")) or (l == 1 and hname in ("far", "max", "upper", "lower")) else THOROUGH
                     inst(f"fromiter_{kind}_l{l}_{tag}_{hname}",
                          f"bulk::from_iter::<{ty}, {l}, {seq_of(keys)}>(step::ALL, {HINTS[hname]})",
-                         kind, l, {"C07": t2, op_: t2 if hname == "exact" else None, "C04": t2 if hname == "none" else None}, "BASE",
+                         kind, l, {"C07": t2}, "BASE",
                          meta=dict(ctor="FromIterator", kind=kind, len=l, keys=keys, hint=hname), covers_required=False)
+                    if hname == "exact":
+                        inst(f"fromiter_{kind}_l{l}_{tag}_{hname}_or",
+                             f"bulk::from_iter::<{ty}, {l}, {seq_of(keys)}>(step::ORDER, {HINTS[hname]})",
+                             kind, l, {op_: t2}, "BASE",
+                             meta=dict(ctor="FromIterator", kind=kind, len=l, keys=keys, hint=hname, group="or"), covers_required=False)
+                    if hname == "none":
+                        inst(f"fromiter_{kind}_l{l}_{tag}_{hname}_st",
+                             f"bulk::from_iter::<{ty}, {l}, {seq_of(keys)}>(step::STRUCT, {HINTS[hname]})",
+                             kind, l, {"C04": t2}, "BASE",
+                             meta=dict(ctor="FromIterator", kind=kind, len=l, keys=keys, hint=hname, group="st"), covers_required=False)
         for w, what in enumerate(("new", "with_capacity(0)", "with_capacity(1)", "with_capacity(5)")):
             inst(f"ctor_{kind}_{w}", f"bulk::ctor::<{ty}>({w})", kind, 1,
                  {op_: QUICK, "C04": QUICK, "C17": QUICK, "C03": QUICK}, "BASE", meta=dict(ctor=what, kind=kind), covers_required=False)
@@ -429,8 +477,23 @@ def _bulk():
                     t = QUICK if (n <= (3 if not dq else 2) and m <= 2 and n + m <= (4 if not dq else 3)) else THOROUGH
                     inst(f"append_{kind}_n{n}_m{m}_{tag}",
                          f"bulk::append::<{ty}, {n}, {m}, {seq_of(keys)}>(Pre::Inv, Tables::Any, step::ALL)",
-                         kind, n + m, {"C07": t, op_: t}, "STEP",
+                         kind, n + m, {"C07": t}, "STEP",
                          meta=dict(op="append", kind=kind, n=n, m=m, other_keys=keys, pre="inv", group="all"),
+                         covers_required=False, cost=(n + m) * (15 if dq else 4))
+                    if tag == "new" or m == 2:
+                        inst(f"append_{kind}_n{n}_m{m}_{tag}_or",
+                             f"bulk::append::<{ty}, {n}, {m}, {seq_of(keys)}>(Pre::Inv, Tables::Any, step::ORDER)",
+                             kind, n + m, {op_: t}, "STEP",
+                             meta=dict(op="append", kind=kind, n=n, m=m, other_keys=keys, pre="inv", group="or"),
+                             covers_required=False, cost=(n + m) * (15 if dq else 4))
+            # contents only (C03): no operation alters an element it does not target
+            for m in (1, 2):
+                if n > 0 and n <= 2 and not (dq and n + m > 2):
+                    keys = [0] + list(range(n, n + m - 1))
+                    inst(f"append_{kind}_n{n}_m{m}_clash_mo",
+                         f"bulk::append::<{ty}, {n}, {m}, {seq_of(keys)}>(Pre::CrashSafe, Tables::Any, step::MODEL)",
+                         kind, n + m, {"C03": QUICK}, "STEP",
+                         meta=dict(op="append", kind=kind, n=n, m=m, other_keys=keys, pre="cs", group="mo"),
                          covers_required=False, cost=(n + m) * (15 if dq else 4))
             if n <= 2:
                 inst(f"append_{kind}_n{n}_m2_cs",
@@ -443,8 +506,12 @@ def _bulk():
             other = "C02" if kind == "pq" else "C01"
             t = tq(n, 4 if dq else 3, 9)
             inst(f"convert_{kind}_n{n}", f"bulk::convert::<{ty}, {n}>(Pre::Inv, Tables::Any, step::ALL)",
-                 kind if dq else "dq", n, {"C07": t, other: t}, "STEP",
+                 kind if dq else "dq", n, {"C07": t}, "STEP",
                  meta=dict(op="From<other kind>", source=kind, n=n, pre="inv", group="all"),
+                 covers_required=False, cost=n * (4 if dq else 20))
+            inst(f"convert_{kind}_n{n}_or", f"bulk::convert::<{ty}, {n}>(Pre::Inv, Tables::Any, step::ORDER)",
+                 kind if dq else "dq", n, {other: t}, "STEP",
+                 meta=dict(op="From<other kind>", source=kind, n=n, pre="inv", group="or"),
                  covers_required=False, cost=n * (4 if dq else 20))
             inst(f"convert_{kind}_n{n}_cs", f"bulk::convert::<{ty}, {n}>(Pre::CrashSafe, Tables::Any, step::STRUCT)",
                  kind if dq else "dq", n, {"C04": tq(n, 2, 9)}, "STEP",
